@@ -112,6 +112,9 @@ class C20(Harness):
                 out.append({'cls': cname, 'set': [[p, k % len(v)] for p, v in params.items()]})
         for name in combos(C):
             out.append({'cls': combos(C)[name][0], 'combo': name, 'set': []})
+            # the same state, printed after an earlier print of it was interrupted half-way (a value whose repr raises, then replaced by a literal)
+            for exc in ('KeyboardInterrupt', 'ValueError'):
+                out.append({'cls': combos(C)[name][0], 'combo': name, 'set': [], 'interrupted_by': exc})
         return out
 
     def run_case(self, case):
@@ -136,6 +139,31 @@ class C20(Harness):
         except Exception as e:
             return Result([V('harness-state-invalid', 'could not build state %r: %r' % (kwargs, e), **key)], outcome='x')
         vs = []
+        if case.get('interrupted_by'):
+            exc_type = {'KeyboardInterrupt': KeyboardInterrupt, 'ValueError': ValueError}[case['interrupted_by']]
+
+            class Bomb:
+                def __repr__(self):
+                    raise exc_type('interrupted while printing')
+            # the innermost nested object (or the object itself) temporarily holds the value that cannot be printed
+            target = obj
+            while True:
+                inner = [getattr(target, n) for n in target.param if isinstance(getattr(target, n), param.Parameterized) and 'v' in getattr(target, n).param]
+                if not inner:
+                    break
+                target = inner[0]
+            saved = target.v
+            target.v = Bomb()
+            for fn in (lambda: param.script_repr(obj), lambda: obj.param.pprint(), lambda: repr(obj)):
+                try:
+                    out = fn()
+                    vs.append(V('print-after-interruption', 'after an interrupted print the next print of the same object did not reach its (unprintable) value '
+                                'but produced %r' % (out[-200:],), interrupted_by=case['interrupted_by'], **key))
+                except BaseException as e:
+                    if not isinstance(e, exc_type):
+                        raise
+            target.v = saved
+            key['interrupted_by'] = case['interrupted_by']
         for mode in ('script_repr', 'pprint'):
             try:
                 if mode == 'script_repr':
